@@ -21,8 +21,8 @@ WARMUP = 240          # the warm-up window of property C14 (jesse's default env.
 SOURCES = ["close", "high", "low", "open", "volume", "hl2", "hlc3", "ohlc4"]
 SECOND = ("benchmark_candles", "candles_compare")
 STR_CHOICES = {"direction": ["long", "short"], "mode_switch": ["Hma", "Ehma", "Thma"], "anchor": ["D", "h"]}
-MATYPE_SWEEP = [0, 1, 2, 3, 4, 5, 6, 12, 23, 10, 14, 32]     # window averages, recursive ones (ema, dema, tema, kama, wilders,
-                                                             # smma, mwdx), hma, a 2-pole filter
+MATYPE_SWEEP = [0, 1, 2, 3, 4, 5, 6, 12, 23, 10, 14, 32, 24, 29]  # window, recursive (ema, dema, tema, kama, wilders,
+                                                             # smma, mwdx), hma, a 2-pole filter, and the volume-weighted vwma / vwap (candles input, vwap anchored at midnight)
 ENUM_INT = {"matype": list(range(0, 40)), "fast_matype": MATYPE_SWEEP, "slow_matype": MATYPE_SWEEP,
             "slowk_matype": MATYPE_SWEEP, "slowd_matype": MATYPE_SWEEP, "fastd_matype": MATYPE_SWEEP,
             "signal_matype": MATYPE_SWEEP, "ma_type": MATYPE_SWEEP, "devtype": [0, 1, 2], "mode": [0, 1, 2, 3, 4],
